@@ -62,14 +62,15 @@ def get_observation_expression(model: Model):
     stats = model.statements
     # FIXME: Handle other DVs
     dv = list(model.dependent_variables.keys())[0]
-    for i, s in enumerate(stats):
-        if s.symbol == dv:
+    for i in range(len(stats) - 1, -1, -1):
+        s = stats[i]
+        if isinstance(s, Assignment) and s.symbol == dv:
             y = s.expression
             break
     else:
         raise ValueError('Could not locate dependent variable expression')
 
-    for j in range(i, -1, -1):
+    for j in range(i - 1, -1, -1):
         y = y.subs({stats[j].symbol: stats[j].expression})
 
     return y
